@@ -28,7 +28,8 @@ REQUIRE = {'writes_in_histories': 300, 'writes_on_reused_writer': 100, 'writes_t
            'outputs_compared_with_pristine_child': 300, 'child_processes': 8, 'faults_injected': 100,
            'input_snapshots_compared': 400, 'sets_with_unclosed_span': 10,
            'reused_writer_after_set_with_language_layout': 5,
-           'suite_writes_observed': 50, 'histories_over_variants_of_one_document': 40}
+           'suite_writes_observed': 50, 'histories_over_variants_of_one_document': 40,
+           'histories_with_a_near_copy_of_an_earlier_set': 20}
 SHARDS = {'quick': 8, 'thorough': 16}
 TIME_LIMIT = {'quick': 1200, 'thorough': 5400}
 ALL_WRITERS = W.WRITERS + ['SCCWriter']
@@ -65,6 +66,32 @@ def gen_writer_cfg(rng):
     return {'writer': name, 'opts': opts}
 
 
+def echo_set(rng, spec):
+    """Nearly the same set again: the same texts one second later, some with a blank in front of the first line or
+    after the last one, or with a break before / after the text - anything a writer keeps about an earlier
+    set (by text, by time, by position) meets a set that is almost but not quite that one."""
+    import copy
+    out = copy.deepcopy(spec)
+    out['echo'] = True
+    for l in out['langs']:
+        for c in l['captions']:
+            c['start'] += 1000000
+            c['end'] += 1000000
+            texts = [n for n in c['nodes'] if n[0] == 't']
+            k = rng.random()
+            if not texts or k < 0.3:
+                continue
+            if k < 0.5:
+                texts[0][1] = ' ' + texts[0][1]
+            elif k < 0.65:
+                texts[-1][1] = texts[-1][1] + ' '
+            elif k < 0.8:
+                c['nodes'].insert(0, ['b'])
+            else:
+                c['nodes'].append(['b'])
+    return out
+
+
 def gen_history(rng, tag):
     nsets = rng.randrange(2, 5)
     sets = []
@@ -81,6 +108,8 @@ def gen_history(rng, tag):
                     spec['unclosed'] = True
                     break
         sets.append(spec)
+    if rng.random() < 0.35:
+        sets.append(echo_set(rng, sets[0]))
     cfgs = [gen_writer_cfg(rng) for _ in range(rng.randrange(2, 5))]
     ops = []
     for _ in range(rng.randrange(4, 10)):
@@ -292,6 +321,8 @@ def check(case, ctx):
     for s in case['sets']:
         if s.get('unclosed'):
             ctx.count('sets_with_unclosed_span')
+        if s.get('echo'):
+            ctx.count('histories_with_a_near_copy_of_an_earlier_set')
     shared = {}
     results = []
     used = {}
